@@ -152,7 +152,12 @@ func runScenarioCounted(sc Scenario, dir string) ([]verif.Event, *RunResult) {
 func countingSink(store *[]verif.Event) func(verif.Event) {
 	return func(e verif.Event) {
 		if strings.HasPrefix(e.Ev, "QS") {
-			return // the queue-scan scheduler ticks whether or not anything moves: neither activity nor part of these traces (see qscan.go)
+			// the queue-scan scheduler ticks whether or not anything moves: not activity, and only the end of each channel's
+			// scan is part of these traces (NsqdAbs!AQSDone); the scheduler itself is validated in qscan.go
+			if e.Ev == "QSDone" {
+				*store = append(*store, e)
+			}
+			return
 		}
 		*store = append(*store, e)
 		if !strings.HasPrefix(e.Ev, "H") {
